@@ -17,7 +17,8 @@ CHECKS = {
  "C08": {
   "text": "Lean theorems over tables regenerated from the source on every run: c08_table (all 18 methods x all library classes, decide "
           "+kernel against the hand-written ARI designation table), c08_generic (every unrelated class, any MRO), c08_user_subclass, "
-          "c08_line (exact token shape of every error reply); tied by the full 18x16 matrix differential of the real error writers "
+          "c08_line (exact token shape of every error reply), c08_doc_sound / c08_doc_complete (the designation table agrees with the :raises "
+          "clauses of interfaces/*.py and the adapter calls of the _on_* handlers, both regenerated each run); tied by the full 18x16 matrix differential of the real error writers "
           "and by the Metadata closures run with raising adapters; payload recovery evaluated on the real lines by a conforming decoder.",
   "ref": "DESIGN.md §5 C08",
   "note": "trusted: Lean kernel; translator for Gen/Exc.lean; Spec.ariCode written by hand from the property text; Python's except-clause matching modelled as MRO membership",
@@ -41,7 +42,8 @@ CHECKS = {
   "text": "Lean theorems c06_tokenize (both terminators), c06_encoder_tokens_clean, c06_generic (any layout, all argument values), "
           "c06_all (all 18 layouts: whole line -> id, method, exactly the encoded arguments) over the model of parse_request and the 18 "
           "read_* functions; tied by a differential over structured requests with distinct values per slot and by running the real "
-          "_on_* closures with a scripted adapter (arguments received = values sent).",
+          "_on_* closures with a scripted adapter (arguments received = values sent), and end to end: conforming lines with CRLF and bare LF "
+          "through the real reader loop, parse_request and read_*.",
   "ref": "DESIGN.md §5 C06",
   "note": "trusted: Lean kernel; Spec/Ari.lean conforming encoder (hand-written); layouts/wiring tables tied by differential only",
   "technique": "Lean 4 proof (induction over token lists / layouts) + pure differential correspondence"},
@@ -85,7 +87,8 @@ CHECKS = {
   "technique": "Lean 4 proof (induction over timed event histories) + virtual-time co-simulation of the real writer thread"},
  "C14": {
   "text": "Lean theorems c14_first (every interleaving of start(), writer and all reader-side producers: the first message queued/written "
-          "is the credentials message with id 1), c14_others_later, c14_content (via C07's credentials theorems); tied by the Data co-simulation "
+          "is the credentials message with id 1), c14_others_later, c14_content (via C07's credentials theorems), c14s_first (the same on the "
+          "whole-Data-server model of the co-simulation: every schedule of starting thread, reader, writer, pool and application threads); tied by the Data co-simulation "
           "(start-up chunks of the starting thread / writer / reader compared in lock-step, request bytes readable before start()) and the "
           "writers differential of write_credentials; the first wire line checked on every real run.",
   "ref": "DESIGN.md §5 C14",
@@ -94,7 +97,9 @@ CHECKS = {
  "C16": {
   "text": "Lean theorems c16_fifo (lines written that are not keepalives = messages enqueued, in order, none lost or duplicated — from C13's "
           "writer model), c16_append_only (every step of an item's machine only appends to the outbound sequence), c16_inside (an adapter "
-          "call can end, hence its reply be enqueued, only when the calling worker has no listener enqueue pending). Tied by the Data "
+          "call can end, hence its reply be enqueued, only when the calling worker has no listener enqueue pending), and on the whole-server "
+          "models of the co-simulation c16s_data_fifo / c16s_meta_fifo (written ++ held ++ queued = everything enqueued by any thread, in "
+          "order), c16s_item_order / c16s_item_written (each item's outbound sequence embedded in order in the wire order). Tied by the Data "
           "co-simulation (written byte stream vs enqueue events on every run) and the writer co-simulation.",
   "ref": "DESIGN.md §5 C16",
   "note": "trusted: Lean kernel; scheduler shim (Queue FIFO); one sendall = one contiguous line is the OS's",
@@ -121,7 +126,9 @@ CHECKS = {
   "text": "Lean theorems over the pool model for every interleaving of submissions, task starts (any pool size), adapter call begins/ends "
           "with every outcome, and reply enqueues: c04_once (an unfinished task has produced nothing; a finished one exactly one of {one "
           "reply, one handler notification}), c04_reply_is_result, c04_notified_only_without_reply, c04_call_is_next, c04_isolation, "
-          "c04_out_count, c04_progress. Tied by lock-step co-simulation of the real MetadataProviderServer under the scheduler (effects incl. "
+          "c04_out_count, c04_progress; Conc/MetaProj + Props/C04S lift them to the whole-server model of the co-simulation (the pool moves "
+          "only by pool steps; every pool reply is enqueued and, once the queue is drained, written; the reader hands each decodable "
+          "request to the pool exactly once). Tied by lock-step co-simulation of the real MetadataProviderServer under the scheduler (effects incl. "
           "adapter calls with decoded arguments, enabled threads, state after every chunk), a fine-grained (line-level preemption) run with "
           "oracles, and the closures differential for dispatch and reply kind.",
   "ref": "DESIGN.md §5 C04",
